@@ -485,8 +485,8 @@ func init() {
 	})
 	register(&propDef{
 		id:          "C06",
-		explanation: "Decides: FRESH (the graphs returned by NewDense and NewSparse reach no memory of the caller's edges / neighbourhoods slices, so later writes by the caller cannot change them), LITERAL (every DenseGraph/SparseGraph composite literal in the module that sets the adjacency field also sets NumberOfVertices, NumberOfEdges and DegreeSequence), EDGEBYTE (transformations and encoders never use the numeric value of an input graph's adjacency byte), VIEW (the methods of the live complement / induced-subgraph views write nothing reachable from the view: no cache to go stale), OWNER (no function other than SparseGraph's own edit methods writes the fields of an existing SparseGraph, whether received as a parameter or obtained from a constructor call, so decoders cannot bypass the row invariants), TRI (every hand-written index into packed-triangle storage in the generators, transformations, decoders and the search is a lower-triangle cell: closed form with 0<=I<J proved for all accepted parameter values when the operands are locally controlled, running index, or linear sweep), and classifies each constructor as counted-by-construction or hand-filled. Does not decide that each named family has exactly the edges of its definition.",
-		notDecided:  []string{"that each named family has exactly the edges its definition prescribes", "agreement of hand-filled counts with adjacency (CompleteGraph, CompletePartiteGraph, Path, Star, Cycle, ComplementDense, InducedSubgraph, MulticodeDecode): a value question", "complement.IsEdge(i,i), Path(1) degree, Path(0)/Star(0) M=-1, MulticodeDecode degrees[s[i]]"},
+		explanation: "Decides: FRESH (the graphs returned by NewDense and NewSparse reach no memory of the caller's edges / neighbourhoods slices, so later writes by the caller cannot change them), LITERAL (every DenseGraph/SparseGraph composite literal in the module that sets the adjacency field also sets NumberOfVertices, NumberOfEdges and DegreeSequence), EDGEBYTE (transformations and encoders never use the numeric value of an input graph's adjacency byte), VIEW (the methods of the live complement / induced-subgraph views write nothing reachable from the view: no cache to go stale), OWNER (no function other than SparseGraph's own edit methods writes the fields of an existing SparseGraph, whether received as a parameter or obtained from a constructor call, so decoders cannot bypass the row invariants), TRI (every hand-written index into packed-triangle storage in the generators, transformations, decoders and the search is a lower-triangle cell: closed form with 0<=I<J proved for all accepted parameter values when the operands are locally controlled, running index, or linear sweep), DEGSYNC (an edge recorded at cell (I,J) is counted into the returned degree sequence at exactly the entries I and J), COUNTS (hand-filled NumberOfEdges >= 0 and degrees within [0,n-1] for every accepted argument), IRREFLEXIVE (no IsEdge implementation can be true for i == j), and classifies each constructor as counted-by-construction or hand-filled. Does not decide that each named family has exactly the edges of its definition.",
+		notDecided:  []string{"that each named family has exactly the edges its definition prescribes", "full agreement of hand-filled counts with adjacency (CompleteGraph, CompletePartiteGraph, Path, Star, Cycle, ComplementDense): only their range (COUNTS) and the pairing of counted edges (DEGSYNC) are decided"},
 		assumptions: []string{"vertex numbers passed as parameters are non-negative", "data-derived operands (Pruefer code elements, Multicode bytes, neighbour lists, part sizes) satisfy their range preconditions (recorded, not judged)"},
 		run: func(c *Ctx, tier string) []*RuleResult {
 			fr := &RuleResult{Rule: "FRESH", Doc: "NewDense / NewSparse keep no caller memory", MinInst: 2}
@@ -510,13 +510,15 @@ func init() {
 					noWrites(c, vw, fn, []int{0}, "the view")
 				}
 			}
-			return []*RuleResult{fr, ruleLiteral(c), tri, own, ruleEdgeByte(c, "graph"), vw, ruleCtorClass(c)}
+			all := func(string) bool { return true }
+			return []*RuleResult{fr, ruleLiteral(c), tri, own, ruleEdgeByte(c, "graph"), vw, ruleDegSync(c, all), ruleCounts(c, all), ruleIrreflexive(c, "graph"), ruleCtorClass(c)}
 		},
 		controls: func(ctl *Ctx) []*RuleResult {
 			fr := &RuleResult{Rule: "FRESH"}
 			freshResult(ctl, fr, ctl.Fn("effctl.BadFresh"), 0, nil, nil, "does not alias the caller's slices")
 			freshResult(ctl, fr, ctl.Fn("effctl.GoodFresh"), 0, nil, nil, "does not alias the caller's slices")
-			return []*RuleResult{fr, ruleLiteral(ctl), ruleTri(ctl, func(string) bool { return true }, "TRI")}
+			all := func(string) bool { return true }
+			return []*RuleResult{fr, ruleLiteral(ctl), ruleTri(ctl, all, "TRI"), ruleDegSync(ctl, all), ruleCounts(ctl, all), ruleIrreflexive(ctl, "graph")}
 		},
 	})
 }
